@@ -6,7 +6,9 @@
   heuristics) are outside the model and decided by search only.  Helper lemmas: Proofs/Dom.lean.
 -/
 import PM.Dom
+import PM.FromDom
 import Proofs.Dom
+import Proofs.FromDom
 namespace PM.C19
 open PM.Dom
 
@@ -319,5 +321,59 @@ theorem serialize_text (kids : List SNode) (h : snodesOk kids = true) :
     textOfAll (serFrag kids [] []) = snodesText kids := by
   have := serFrag_text kids [] [] h (by intro f hf; simp at hf)
   simpa [stackText, textOfAll] using this
+
+/-! ## Import side, part A: context expressions of parse rules (`ParseContext.matches_context`)
+
+  Model `PM.FromDom.matchesContext` (PM/FromDom.lean), tied exactly to the real method on generated
+  stacks × generated expressions.  The declarative reading (`Item`, `itemsOf`, `Denotes`, `AltMatches`)
+  is defined in Proofs/FromDom.lean:
+
+  * the expression is cut at every `|` (`alternatives`: `re.split(r"\s*\|\s*")`, whitespace around a `|`
+    is dropped, nowhere else);
+  * an alternative is cut at `/`; an empty first and an empty last piece are ignored (`/a` = `a`,
+    `a/` = `a`); any other empty piece is the `//` wildcard (`itemsOf`);
+  * `Denotes ok items l` — `items` matches the ancestor list `l` exactly: a name one ancestor (its type
+    name or one of its groups), the wildcard any number (≥ 0) of them;
+  * `AltMatches ok items stack` — some **suffix** of the visible ancestors (outermost first) is denoted
+    by `items` (anchored at the innermost open node, unanchored at the top), and if `items` starts with
+    a wildcard at least one ancestor stays outside the matched suffix.  The last clause is what the
+    code does (the wildcard loop runs `while depth >= min_depth`, so it cannot consume the outermost
+    visible ancestor): `//p` does not apply to a root-level `p` context although `p` does.
+-/
+open PM.FromDom in
+/-- **`matches_context` = the declarative reading**, for all schemas, stacks and expressions -/
+theorem matchesContext_spec (S : Schema) (G : TypeId → List String) (stack : List TypeId) (ctx : List Char) :
+    matchesContext S G stack ctx = true ↔
+      ∃ alt ∈ alternatives ctx, AltMatches (nameOk S G) (itemsOf alt) stack := by
+  simp only [matchesContext, List.any_eq_true, matchesAlt_iff]
+
+open PM.FromDom in
+/-- an expression without `|` is its own only alternative, whitespace included -/
+theorem alternatives_single (ctx : List Char) (h : '|' ∉ ctx) : alternatives ctx = [ctx] :=
+  alternatives_no_bar ctx h
+
+open PM.FromDom in
+/-- the empty alternative matches every stack (`"a|"` never restricts a rule) -/
+theorem altMatches_empty (ok : List Char → TypeId → Bool) (stack : List TypeId) :
+    AltMatches ok (itemsOf []) stack :=
+  ⟨stack, [], by simp, .nil, by simp [itemsOf, splitOn, dropLastEmpty, dropFirstEmpty]⟩
+
+section Examples
+open PM.FromDom
+-- how expressions are read
+example : itemsOf "blockquote/".toList = [.name "blockquote".toList] := by decide
+example : itemsOf "blockquote//".toList = [.name "blockquote".toList, .any] := by decide
+example : itemsOf "/doc//list_item/paragraph/".toList =
+    [.name "doc".toList, .any, .name "list_item".toList, .name "paragraph".toList] := by decide
+example : itemsOf "//p".toList = [.any, .name "p".toList] := by decide
+example : alternatives "blockquote// \t|  doc/ ".toList = ["blockquote//".toList, "doc/ ".toList] := by decide
+-- the wildcard quirk on a three-type table (0 = doc, 1 = blockquote, 2 = p), names only
+private def ok3 (s : List Char) (t : TypeId) : Bool := s == (["doc", "blockquote", "p"].getD t "").toList
+example : matchesAlt ok3 [2, 1, 0] "//p".toList = true := by decide
+example : matchesAlt ok3 [2] "//p".toList = false := by decide
+example : matchesAlt ok3 [2] "p".toList = true := by decide
+example : matchesAlt ok3 [2, 1, 1, 0] "doc//p/".toList = true := by decide
+example : matchesAlt ok3 [2, 1, 1, 0] "doc/p/".toList = false := by decide
+end Examples
 
 end PM.C19
